@@ -27,6 +27,7 @@ type AliasSpec struct {
 }
 
 type aliasStats struct {
+	Interior []string // methods whose result changes when a sub-typed operand points into the receiver (recorded only)
 	Methods  []string
 	Skipped  []string
 	Calls    int
@@ -152,22 +153,6 @@ func CheckAlias(r *Run, g string, s *AliasSpec) map[string]any {
 				nalias++
 			}
 		}
-		if ok {
-			secondaryAlias(r, g, s, st, name, pt, et, vals, func(i int) (bool, reflect.Type) { return params[i].alias, params[i].t }, len(params), equal)
-		}
-		if !ok || nalias < 2 {
-			if !ok {
-				st.Skipped = append(st.Skipped, name)
-			}
-			continue
-		}
-		st.Methods = append(st.Methods, name)
-		var apos []int
-		for i, p := range params {
-			if p.alias {
-				apos = append(apos, i)
-			}
-		}
 		other := func(t reflect.Type, variant int) reflect.Value {
 			switch {
 			case t == et:
@@ -187,6 +172,23 @@ func CheckAlias(r *Run, g string, s *AliasSpec) map[string]any {
 				return cloneVal(v)
 			}
 			return cloneVal(v).Elem()
+		}
+		if ok {
+			interiorAlias(r, g, s, st, name, pt, et, vals, func(i int) (bool, reflect.Type) { return params[i].alias, params[i].t }, len(params), equal, other)
+			secondaryAlias(r, g, s, st, name, pt, et, vals, func(i int) (bool, reflect.Type) { return params[i].alias, params[i].t }, len(params), equal)
+		}
+		if !ok || nalias < 2 {
+			if !ok {
+				st.Skipped = append(st.Skipped, name)
+			}
+			continue
+		}
+		st.Methods = append(st.Methods, name)
+		var apos []int
+		for i, p := range params {
+			if p.alias {
+				apos = append(apos, i)
+			}
 		}
 		for _, part := range setPartitions(len(apos)) {
 			nb := 0
@@ -289,10 +291,124 @@ func CheckAlias(r *Run, g string, s *AliasSpec) map[string]any {
 	r.Add(st.Calls)
 	r.Tag(s.Prefix)
 	r.Note("alias_coverage", s.Prefix, fmt.Sprintf("patterns=%d calls=%d methods=[%s] not_enumerated=[%s]", st.Patterns, st.Calls, strings.Join(st.Methods, " "), strings.Join(st.Skipped, " ")))
-	return map[string]any{"type": s.Prefix, "methods": strings.Join(st.Methods, " "), "not_enumerated": strings.Join(st.Skipped, " "), "alias_patterns": st.Patterns, "calls": st.Calls}
+	sort.Strings(st.Interior)
+	return map[string]any{"type": s.Prefix, "sensitive_to_operands_pointing_into_the_receiver(recorded,outside the statement)": strings.Join(dedupStrings(st.Interior), " "), "methods": strings.Join(st.Methods, " "), "not_enumerated": strings.Join(st.Skipped, " "), "alias_patterns": st.Patterns, "calls": st.Calls}
 }
 
 var bigIntMenu = []*big.Int{big.NewInt(5), big.NewInt(-3), new(big.Int).Lsh(big.NewInt(1), 70), new(big.Int).Neg(new(big.Int).Add(new(big.Int).Lsh(big.NewInt(1), 130), big.NewInt(9))), new(big.Int)}
+
+// subValuesOf collects (at most 4) addressable, settable sub-values of type u inside v: exported struct fields, array
+// entries, slice elements (first, middle, last).
+func subValuesOf(v reflect.Value, u reflect.Type, depth int, out *[]reflect.Value) {
+	if depth > 3 || len(*out) >= 4 {
+		return
+	}
+	visit := func(f reflect.Value) {
+		if !f.CanAddr() || !f.CanSet() {
+			return
+		}
+		if f.Type() == u {
+			if len(*out) < 4 {
+				*out = append(*out, f)
+			}
+			return
+		}
+		subValuesOf(f, u, depth+1, out)
+	}
+	switch v.Kind() {
+	case reflect.Struct:
+		for i := 0; i < v.NumField(); i++ {
+			visit(v.Field(i))
+		}
+	case reflect.Array, reflect.Slice:
+		k := v.Type().Elem().Kind()
+		if k != reflect.Struct && k != reflect.Array {
+			return
+		}
+		n := v.Len()
+		seen := map[int]bool{}
+		for _, i := range []int{0, n / 2, n - 1} {
+			if i >= 0 && i < n && !seen[i] {
+				seen[i] = true
+				visit(v.Index(i))
+			}
+		}
+	}
+}
+
+// interiorAlias: a pointer operand of another type U may point INTO the receiver (a coordinate of a tower element, an
+// entry of a vector): z.Op(x, &z.B0). The call must compute what it computes when that operand is a separate copy of
+// the same value; the other receiver-typed operands are the receiver itself (first form) or a distinct object (second).
+func interiorAlias(r *Run, g string, s *AliasSpec, st *aliasStats, name string, pt, et reflect.Type, vals []any,
+	param func(i int) (bool, reflect.Type), np int, equal func(a, b reflect.Value) bool, other func(t reflect.Type, variant int) reflect.Value) {
+	bigT := reflect.TypeOf((*big.Int)(nil))
+	for pos := 1; pos < np; pos++ {
+		al, t := param(pos)
+		if al || t.Kind() != reflect.Ptr || t == bigT || t == pt {
+			continue
+		}
+		u := t.Elem()
+		if u.Kind() != reflect.Struct && u.Kind() != reflect.Array {
+			continue
+		}
+		for vi := 0; vi < len(vals) && vi < 3; vi++ {
+			var probe []reflect.Value
+			subValuesOf(cloneVal(vals[vi]).Elem(), u, 0, &probe)
+			for si := range probe {
+				for form := 0; form < 2; form++ {
+					build := func(aliased bool) (recv reflect.Value, args []reflect.Value) {
+						recv = cloneVal(vals[vi])
+						var subs []reflect.Value
+						subValuesOf(recv.Elem(), u, 0, &subs)
+						for j := 1; j < np; j++ {
+							aj, tj := param(j)
+							switch {
+							case j == pos:
+								if aliased {
+									args = append(args, subs[si].Addr())
+								} else {
+									c := reflect.New(u)
+									c.Elem().Set(subs[si])
+									args = append(args, c)
+								}
+							case aj:
+								v := recv
+								if form == 1 {
+									v = cloneVal(vals[(vi+1)%len(vals)])
+								}
+								if tj == et {
+									args = append(args, v.Elem())
+								} else {
+									args = append(args, v)
+								}
+							default:
+								args = append(args, other(tj, form))
+							}
+						}
+						return
+					}
+					rA, aA := build(true)
+					rR, aR := build(false)
+					pnA := Guard(func() { rA.MethodByName(name).Call(aA) })
+					pnR := Guard(func() { rR.MethodByName(name).Call(aR) })
+					st.Calls += 2
+					id := fmt.Sprintf("operand %d points at sub-value #%d of the receiver (value %d, other receiver-typed operands: %s)", pos, si, vi, map[int]string{0: "the receiver", 1: "distinct"}[form])
+					// An operand that points INTO the receiver is not "the same object" in the sense of C19's statement, and on
+					// the unchanged tree several methods (Polynomial.Scale / ScaleInPlace / AddConstantInPlace, E2 / E4
+					// MulByElement of the small-field towers) re-read such an operand after their first store: this is recorded,
+					// not reported. What IS required (C09) is that the outcome does not depend on the CPU-specific code path, so
+					// the configuration product observes the aliased result.
+					if r.ObsMode() {
+						r.ObserveStr(g, fmt.Sprintf("interior|%s|%s|%v|%s", name, id, pnA != "", DeepDump(rA.Elem().Interface())))
+					}
+					if pnA == "" && pnR == "" && !equal(rA, rR) {
+						st.Interior = append(st.Interior, name)
+					}
+				}
+			}
+		}
+	}
+}
 
 // secondaryAlias: pointer operands of a type other than the receiver's that occur at two or more positions
 // (e.g. the two *big.Int scalars of a joint scalar multiplication, two *G1Affine bases) are passed as ONE object
@@ -459,6 +575,16 @@ func SquareSamples(samples []any) []any {
 				sq.MethodByName("Square").Call([]reflect.Value{v})
 				out = append(out, sq.Interface())
 			}
+		}
+	}
+	return out
+}
+
+func dedupStrings(l []string) []string {
+	var out []string
+	for i, x := range l {
+		if i == 0 || x != l[i-1] {
+			out = append(out, x)
 		}
 	}
 	return out
